@@ -117,17 +117,23 @@ def tsan(ctx):
 
 
 def run(ctx):
-    ctx.extract(["c12bounds", "c12sharing"])
-    ctx.prove(PROPS, extra_modules=["RotoV.Lemmas.Conc", "RotoV.Model.Conc", "RotoV.Lemmas.ConcShare", "RotoV.Model.ConcShare"])
+    ctx.extract(["c12bounds", "c12sharing", "c12instr", "c12globals"])
+    ctx.prove(PROPS, extra_modules=["RotoV.Lemmas.Conc", "RotoV.Model.Conc", "RotoV.Lemmas.ConcShare", "RotoV.Model.ConcShare",
+                                     "RotoV.Lemmas.ConcExec", "RotoV.Model.ConcExec", "RotoV.Model.ConcInstr"])
     if ctx.build_harness("c12"):
         ctx.harness("c12", harness_args(ctx, ctx.seed, ctx.tier), timeout=3000)
         if ctx.tier == "thorough":
             tsan(ctx)
     ctx.trusted += [
         "LIR dump hook roto::verif_hooks::c12 (structured dump of the real lowered program) and the driver's parser of it",
-        "a callee (Roto or runtime function) writes at most through the pointers it is handed; the context is handed on read-only "
-        "(for Roto callees this is frame_local_writes applied to the callee; for Rust runtime functions it is their signature: out-pointer first, by-value arguments in slots)",
-        "Cranelift maps LIR stack slots to the frame of the running thread; the host passes by-reference arguments from its own frame (codegen/mod.rs, value/mod.rs) — modelled, not verified",
+        "Rust code called from generated code (runtime functions, clone_fn, drop glue, eq_fn, string / literal initialisers) writes at most through the pointers it is handed for writing "
+        "and reads only its operands and memory the call can address (Exec.RtConfined); derived in rtConfined_of_sync from T3 plus the trusted SitesAdmitted (every such Rust object was admitted through a generated bound list) "
+        "and SyncConfines (the meaning of Send + Sync). Roto callees are NOT assumed: T5 runs them as frames of the same machine",
+        "Exec.resolve: a stack slot / return buffer / by-reference argument named by call i is memory of call i — Cranelift maps LIR stack slots to the frame of the running thread, the host passes "
+        "by-reference arguments from its own frame (codegen/mod.rs, value/mod.rs); modelled, not verified. Tied to the sources only as far as codegen_ops_match_model / eval_ops_match_model go "
+        "(which instruction kinds store, copy, load, call; frame push / pop and fresh slots in the reference interpreter)",
+        "translator targets c12instr (enum Instruction; method-call names inside FuncGen::instruction and the FuncGen helpers it calls on self; operations on `mem` inside lir::eval::eval) and "
+        "c12globals (every `static` item under src/ by the NAMES in its type: Mutex, RwLock, Atomic*, Cell, RefCell, UnsafeCell, Rc; uses of a lock-shaped static by token scan of the declaring file; a pub lock-shaped static is an extraction failure)",
         "rustc's auto-trait rules: a type passes a bound list iff it has the listed auto traits (Bounds.admits); checked against rustc on the probe programs of each run",
         "translator target c12sharing: shapes are decided by type NAME (Arc, Rc, Mutex, RwLock, Cell …; renames/aliases of these names are an extraction failure), structs of the crate are inlined, "
         "enums and foreign types are opaque (.ext); a RawList method 'writes' iff its body contains a write primitive, a call through drop_fn/clone_fn, a field assignment or a call of a writing method on self",
@@ -139,7 +145,8 @@ def run(ctx):
         level="proof",
         rule="stress cases: a class is (script family, feature flags, number of calling threads) with every concurrent result compared to the "
              "single-threaded result of the same call; evaluations = compared concurrent calls + rustc probe programs; "
-             "every script's real LIR goes through the verified checker (histogram lir-checked: items / instructions / write sites); "
+             "every script's real LIR goes through the verified checker as a whole program — Exec.acceptProg, the hypothesis of accepted_items_noninterfere "
+             "(histogram lir-checked: items / instructions / write sites / calls between items; histogram lir-kinds: instructions per lir::Instruction kind; seven kind representatives run first and must reach all generated kinds); "
              "share classes (run first, each in its own worker): swap-rust / swap-script (N threads x swaps on overlapping indices of one shared list, concurrent snapshots: "
              "every snapshot and the final list must be a permutation of whole elements, element drop count balances), refcount-storm (clone/drop/compile storms on a registered closure "
              "and a registered constant holding a drop-counting token: no drop while an owner lives, exactly one at the end), into-func (closure of into_func called after every other "
